@@ -16,3 +16,8 @@ func SetMapOrder(ctl uintptr, seed uint32) { runtime.VerifSetMapOrder(ctl, seed)
 func SetNow(sec int64)                     { time.VerifSetNow(sec) }
 func NowCalls() int64                      { return time.VerifNowCalls() }
 func EnvCalls() int64                      { return syscall.VerifEnvCalls() }
+
+// IOCalls: file / network / process system calls issued through package syscall (0 and IOSeam=false if the seam could not be installed).
+func IOCalls() int64 { return syscall.VerifIOCalls() }
+
+const IOSeam = syscall.VerifIOSeam
